@@ -18,17 +18,30 @@
            nothing else; it can be parsed back to the outcome;
      (iv)  the dispatch table and the semantic justification of its three substitutions; the five
            problems answered by the grounded solver are right END TO END for the problem's semantics.
-   PARTIAL (named so): that the outcome rendered for the other 16 problems is the one the semantics
-   dictate is the content of C01-C04, which are themselves partial (component level); on every run
-   the check judges status and witness of every invocation with the brute-force semantics instead.
-   REFUTED on the pinned tree (finding F-CLI-1): the witness printed for DC-PR is a complete, not
-   necessarily preferred, extension: [C05_dcpr_certificate_gap] is the counter-example at the level
-   of the semantics; the status line of DC-PR is right ([C05_dispatch_sound]).
+   END TO END (part (v), Proofs/CliE2E*.v): for ALL 21 problems, every valid SAT oracle, threshold >= 1, every
+   instance whose graph view is a good view of a framework F: [C05_all_problems_correct] classifies the
+   result of the run: Exit0 with the rendering of an answer that the semantics of the PROBLEM dictate
+   (status iff credulous / skeptical acceptance, witness exactly when promised, an extension, without
+   duplicates, of arguments of F, containing / avoiding the query argument), or ExitNonZero with an
+   Unknown SAT answer as last event of the SAT log, or the model's fuel artefact only when the fuel is
+   below the proved bound; never a silent success after a panic.  [C05_wrapper_correct]: the same for the
+   ICCMA'23 wrapper.  [C05_iccma_file_correct], [C05_apx_file_correct]: the same FROM THE BYTES of a
+   well-formed instance file (composition with the readers of C13); [C05_iccma_file_rejected],
+   [C05_apx_file_rejected]: a file the reader rejects gives a non-zero exit and no output.
+   [C05_grounded_problems_correct_partial] (5 of the 21 problems, older) is kept.
+   ABOUT DC-PR: the witness printed for DC-PR is a complete, not necessarily preferred, extension
+   containing the argument (property C04 allows exactly that); [C05_dcpr_certificate_gap] shows that it
+   need not be preferred; the status line of DC-PR is right ([C05_dispatch_sound]).
    NOT MODELLED (trusted): clap's tokenizer ([parse_tokens] covers the plain `-o value` token form
    only), the logger, process exit codes other than zero / non-zero. *)
 From Coq Require Import String NArith List.
+(* Spec.IoSpec (vocabulary of well-formed instance files, C13) is imported FIRST so that the names of
+   Model.Cli ([dec], [parse_usize], ...) are the ones used below *)
+From Crusta Require Import Spec.IoSpec.
 From Crusta Require Import Spec.AF Sat.Cnf Sat.Prog Model.Solvers Model.Cli.
 From Crusta Require Import Proofs.AbortProofs Proofs.GroundedProofs Proofs.CliProofs.
+From Crusta Require Import Proofs.SolverBasics Proofs.TopBase Proofs.TopMax Proofs.SolverTop.
+From Crusta Require Import Proofs.CliE2E Proofs.CliE2EFiles Proofs.CliE2EApx.
 Import ListNotations.
 
 (* ------------------------------------------------------------------ (i) the 21 problems *)
@@ -203,6 +216,253 @@ Theorem C05_wrapper_forces_options : forall real o f,
   o_reader o = RIccma23 /\ o_cert o = true /\ o_logging_off o = true /\ o_encoding o = EncAbsent.
 Proof. exact wrapper_forces_options. Qed.
 
+(* ------------------------------------------------------------------ (v) END TO END, all 21 problems *)
+(* Vocabulary.
+   [valid_oracle oracle] (Proofs/SolverBasics.v): every answer is one a correct SAT solver may give: a
+     model of the clauses and assumptions, Unsat only if there is none, or Unknown (always allowed).
+   [view_good g F] (Proofs/TopBase.v): the graph view [g] (ids, attack lists) presents the framework [F];
+     instances: compact frameworks, every reachable store, ICCMA-built stores (the C01_good_view theorems).
+   [validate o inst = inr (i, q, s, al)]: the invocation is well formed: instance [i], query [q],
+     semantics [s] of the problem string, [al] = [] for SE, = [id of the -a argument] for DC / DS.
+   [run_traced] returns the result of the tool and the SAT log (events in order).
+   [supported], [enc_ok], [query_comps], [fuel_ok] (Proofs/SolverTop.v, TopMax.v): the entry points
+     that exist, the encoders a solver type accepts, the components a query works on, and
+     "the fuel covers the proved per-component bound" (2 * comp_bound + 4 <= fuel for each of them). *)
+
+(* every row of the dispatch lands on an existing entry point with an admissible encoder (this covers
+   the case-sensitive "SE-PR" test selecting the admissibility encoder and hybrid -> exp for STG) *)
+Theorem C05_dispatch_rows_ok : forall raw q s eo,
+  read_problem_string raw = inr (q, s) ->
+  supported (solver_for q s) q /\ enc_ok (solver_for q s) (encoder_for raw s eo).
+Proof. exact dispatch_rows_ok. Qed.
+
+(* THE end-to-end theorem.  For a well-formed invocation on an instance presenting F:
+   - Exit0: stdout is the rendering of an outcome that is right for the PROBLEM (q, s):
+       SE: an extension under s, without duplicates, of arguments of F; `NO` only for ST without
+           stable extension;
+       DC: YES iff credulously accepted under s; a witness only if requested and YES, then an
+           extension containing the argument (for DC-PR: a COMPLETE extension, cf. C04); no witness
+           although requested only if NO;
+       DS: YES iff skeptically accepted under s; a witness only if requested and NO, then an
+           extension under s avoiding the argument; no witness although requested only if YES;
+     and no SAT answer was Unknown;
+   - ExitNonZero: the last SAT answer was Unknown (the only one);
+   - ModelOutOfFuel (artefact of the model): only if the fuel is below the proved bound.
+   The result is never a success produced after a panic (a panic would give ExitNonZero without an
+   Unknown answer, which is excluded). *)
+Theorem C05_all_problems_correct : forall oracle thr d fuel o inst i q s al F,
+  valid_oracle oracle -> 1 <= thr ->
+  view_good (i_g i) F -> (forall a, In a al -> In a (args F)) ->
+  validate o inst = inr (i, q, s, al) ->
+  match run_traced oracle thr d fuel o inst with
+  | (Exit0 out, log) =>
+      (exists oc, out = render (writer_of (o_reader o)) (i_label i) oc /\
+         match q, oc with
+         | QSE, OExt (Some L) => ext s F L /\ NoDup L /\ incl L (args F)
+         | QSE, OExt None => s = ST /\ forall S, ~ ext ST F S
+         | QDC, OAcc b c =>
+             (b = true <-> cred s F al) /\
+             match c with
+             | Some L => o_cert o = true /\ b = true /\
+                         ext (match s with PR => CO | _ => s end) F L /\ NoDup L /\ incl L (args F) /\
+                         exists a, In a al /\ In a L
+             | None => o_cert o = true -> b = false
+             end
+         | QDS, OAcc b c =>
+             (b = true <-> skep s F al) /\
+             match c with
+             | Some L => o_cert o = true /\ b = false /\ ext s F L /\ NoDup L /\ incl L (args F) /\
+                         forall a, In a al -> ~ In a L
+             | None => o_cert o = true -> b = true
+             end
+         | _, _ => False
+         end) /\
+      (forall k a, ~ In (k, ESolve a Unknown) log)
+  | (ExitNonZero, log) =>
+      exists k a log', log = log' ++ [(k, ESolve a Unknown)] /\
+                       forall k' a', ~ In (k', ESolve a' Unknown) log'
+  | (ModelOutOfFuel, log) =>
+      ~ fuel_ok (solver_for q s) (encoder_for (o_problem o) s (o_encoding o))
+                (query_comps (solver_for q s) q (o_cert o) (i_g i) al) fuel
+  end.
+Proof. exact all_problems_correct. Qed.
+
+(* [answer_ok q s cert F al oc] (Proofs/CliE2E.v) abbreviates, in the theorems below, the condition on
+   the rendered outcome spelled out in C05_all_problems_correct *)
+Theorem C05_answer_ok_spelled : forall q s cert F al oc,
+  answer_ok q s cert F al oc <->
+  match q, oc with
+  | QSE, OExt (Some L) => ext s F L /\ NoDup L /\ incl L (args F)
+  | QSE, OExt None => s = ST /\ forall S, ~ ext ST F S
+  | QDC, OAcc b c =>
+      (b = true <-> cred s F al) /\
+      match c with
+      | Some L => cert = true /\ b = true /\
+                  ext (match s with PR => CO | _ => s end) F L /\ NoDup L /\ incl L (args F) /\
+                  exists a, In a al /\ In a L
+      | None => cert = true -> b = false
+      end
+  | QDS, OAcc b c =>
+      (b = true <-> skep s F al) /\
+      match c with
+      | Some L => cert = true /\ b = false /\ ext s F L /\ NoDup L /\ incl L (args F) /\
+                  forall a, In a al -> ~ In a L
+      | None => cert = true -> b = true
+      end
+  | _, _ => False
+  end.
+Proof. exact answer_ok_spelled. Qed.
+
+(* the ICCMA'23 wrapper (in the modelled token form): a solve run of crustabri_iccma23 is the same run
+   with the ICCMA'23 reader / writer, certificates on and the default encoding; so a witness line is
+   printed exactly with YES (DC) / NO (DS) *)
+Theorem C05_wrapper_correct : forall oracle thr d fuel real o file inst i q s al F,
+  parse_wrapper real = CSolve o file ->
+  valid_oracle oracle -> 1 <= thr ->
+  view_good (i_g i) F -> (forall a, In a al -> In a (args F)) ->
+  validate o inst = inr (i, q, s, al) ->
+  exec oracle thr d fuel (parse_wrapper real) inst = Some (run oracle thr d fuel o inst) /\
+  match run_traced oracle thr d fuel o inst with
+  | (Exit0 out, log) =>
+      (exists oc, out = render WIccma (i_label i) oc /\ answer_ok q s true F al oc /\
+                  match q, oc with
+                  | QDC, OAcc b c => b = true <-> exists L, c = Some L
+                  | QDS, OAcc b c => b = false <-> exists L, c = Some L
+                  | _, _ => True
+                  end) /\
+      (forall k a, ~ In (k, ESolve a Unknown) log)
+  | (ExitNonZero, log) =>
+      exists k a log', log = log' ++ [(k, ESolve a Unknown)] /\
+                       forall k' a', ~ In (k', ESolve a' Unknown) log'
+  | (ModelOutOfFuel, log) =>
+      ~ fuel_ok (solver_for q s) (encoder_for (o_problem o) s EncAbsent)
+                (query_comps (solver_for q s) q true (i_g i) al) fuel
+  end.
+Proof. exact wrapper_correct. Qed.
+
+(* ------------------------------------------------------------------ (v') from the BYTES of the file *)
+(* Vocabulary (Spec/IoSpec.v, as in C13): [f : iccma_file] is an abstract well-formed ICCMA'23 file
+   (comments, preamble `p af n`, attack lines, trailing empty lines / comments, with all the blanks,
+   `+` signs and leading zeros); [iccma_file_ok f]: blanks are blanks, indexes are in 1..n, n fits;
+   [render_lines (iccma_file_lines f) eols final_nl]: its bytes, LF or CRLF per line ([eols]), final
+   newline or not; [file_attacks f]: the declared attacks as 0-based id pairs, in file order.
+   [iccma_input bytes] (Proofs/CliE2EFiles.v) = [Some (iccma_instance fw)] when [read_iccma bytes]
+   returns the framework [fw], [None] when it returns an error: what the command gets from the reader.
+   The framework is [compact n atts]: arguments 0..n-1, attacks [atts]. *)
+Theorem C05_iccma_file_correct : forall oracle thr d fuel o f eols final_nl i q s al,
+  valid_oracle oracle -> 1 <= thr ->
+  iccma_file_ok f -> IoSpec.final_ok (iccma_file_lines f) final_nl ->
+  o_reader o = RIccma23 ->
+  let bytes := render_lines (iccma_file_lines f) eols final_nl in
+  let F := compact (f_n f) (file_attacks f) in
+  validate o (iccma_input bytes) = inr (i, q, s, al) ->
+  i = iccma_instance (iccma_fw (f_n f) (file_attacks f)) /\
+  (forall id, id < f_n f -> i_label i id = dec (N.of_nat (S id))) /\    (* argument id is printed as id+1 *)
+  (forall a, In a al -> a < f_n f) /\
+  match run_traced oracle thr d fuel o (iccma_input bytes) with
+  | (Exit0 out, log) =>
+      (exists oc, out = render WIccma (i_label i) oc /\ answer_ok q s (o_cert o) F al oc) /\
+      (forall k a, ~ In (k, ESolve a Unknown) log)
+  | (ExitNonZero, log) =>
+      exists k a log', log = log' ++ [(k, ESolve a Unknown)] /\
+                       forall k' a', ~ In (k', ESolve a' Unknown) log'
+  | (ModelOutOfFuel, log) =>
+      ~ fuel_ok (solver_for q s) (encoder_for (o_problem o) s (o_encoding o))
+                (query_comps (solver_for q s) q (o_cert o) (i_g i) al) fuel
+  end.
+Proof. exact iccma_file_correct. Qed.
+
+(* on that instance the -a operand is read as in C13_iccma_read_arg_exact: a decimal usize k (optional
+   `+`, leading zeros) with 1 <= k <= n names the argument with id k-1; anything else is an error *)
+Theorem C05_iccma_file_instance : forall n atts, (forall p, In p atts -> fst p < n /\ snd p < n) ->
+  let i := iccma_instance (iccma_fw n atts) in
+  view_good (i_g i) (compact n atts) /\
+  (forall id, id < n -> i_label i id = dec (N.of_nat (S id))) /\
+  (forall a, i_arg i a =
+             match parse_usize a with
+             | Some k => if (0 <? k)%N && (k <=? N.of_nat n)%N then Some (N.to_nat k - 1) else None
+             | None => None
+             end).
+Proof. exact iccma_instance_facts. Qed.
+
+(* a file the ICCMA'23 reader rejects (each rejection class of C13: invalid UTF-8, missing or bad
+   preamble, bad attack line, content after an empty line): non-zero exit, no output, no SAT call *)
+Theorem C05_iccma_file_rejected : forall oracle thr d fuel o bytes,
+  read_iccma bytes = RdErr ->
+  run_traced oracle thr d fuel o (iccma_input bytes) = (ExitNonZero, []).
+Proof. exact iccma_file_rejected. Qed.
+
+(* the wrapper on the bytes of a well-formed ICCMA'23 file *)
+Theorem C05_wrapper_iccma_file_correct : forall oracle thr d fuel real o file f eols final_nl i q s al,
+  parse_wrapper real = CSolve o file ->
+  valid_oracle oracle -> 1 <= thr ->
+  iccma_file_ok f -> IoSpec.final_ok (iccma_file_lines f) final_nl ->
+  let bytes := render_lines (iccma_file_lines f) eols final_nl in
+  let F := compact (f_n f) (file_attacks f) in
+  validate o (iccma_input bytes) = inr (i, q, s, al) ->
+  exec oracle thr d fuel (parse_wrapper real) (iccma_input bytes)
+    = Some (run oracle thr d fuel o (iccma_input bytes)) /\
+  (forall id, id < f_n f -> i_label i id = dec (N.of_nat (S id))) /\
+  (forall a, In a al -> a < f_n f) /\
+  match run_traced oracle thr d fuel o (iccma_input bytes) with
+  | (Exit0 out, log) =>
+      (exists oc, out = render WIccma (i_label i) oc /\ answer_ok q s true F al oc /\
+                  match q, oc with
+                  | QDC, OAcc b c => b = true <-> exists L, c = Some L
+                  | QDS, OAcc b c => b = false <-> exists L, c = Some L
+                  | _, _ => True
+                  end) /\
+      (forall k a, ~ In (k, ESolve a Unknown) log)
+  | (ExitNonZero, log) =>
+      exists k a log', log = log' ++ [(k, ESolve a Unknown)] /\
+                       forall k' a', ~ In (k', ESolve a' Unknown) log'
+  | (ModelOutOfFuel, log) =>
+      ~ fuel_ok (solver_for q s) (encoder_for (o_problem o) s EncAbsent)
+                (query_comps (solver_for q s) q true (i_g i) al) fuel
+  end.
+Proof. exact wrapper_iccma_file_correct. Qed.
+
+(* Aspartix.  [f : apx_file]: `arg(l).` lines then `att(a,b).` lines with blanks and blank lines;
+   [apx_file_ok f]: identifiers are identifiers, attacks name declared labels; [decl_labels f],
+   [att_pairs f]: the declared labels (duplicates kept) and attacks as label pairs;
+   [dedup str_eqb [] l]: first occurrences of l in order.  [apx_input bytes] as [iccma_input], with
+   [read_apx] and [Cli.apx_instance].  The framework F = [apx_af decls pairs] is the one denoted by the
+   store the reader returns (live ids, attacks as id pairs); the first conjunct says what it is:
+   argument id k is the k-th distinct declared label, attacks are exactly the declared pairs.
+   (Model caveat, see Proofs/CliE2EApx.v: Cli.apx_instance prints a label as its list of code points,
+   which is its UTF-8 encoding for ASCII labels only.) *)
+Theorem C05_apx_file_correct : forall oracle thr d fuel o f eols final_nl i q s al,
+  valid_oracle oracle -> 1 <= thr ->
+  apx_file_ok f -> IoSpec.final_ok (apx_file_lines f) final_nl ->
+  o_reader o = RApx ->
+  let bytes := render_lines (apx_file_lines f) eols final_nl in
+  let labels := dedup str_eqb [] (decl_labels f) in
+  let F := apx_af (decl_labels f) (att_pairs f) in
+  validate o (apx_input bytes) = inr (i, q, s, al) ->
+  (args F = seq 0 (length labels) /\
+   (forall a b, att F a b -> a < length labels /\ b < length labels) /\
+   (forall a b la lb, nth_error labels a = Some la -> nth_error labels b = Some lb ->
+                      (att F a b <-> In (la, lb) (att_pairs f)))) /\
+  (forall id l, nth_error labels id = Some l -> i_label i id = l) /\
+  (forall a, In a al -> exists w, o_arg o = Some w /\ nth_error labels a = Some w) /\
+  match run_traced oracle thr d fuel o (apx_input bytes) with
+  | (Exit0 out, log) =>
+      (exists oc, out = render WApx (i_label i) oc /\ answer_ok q s (o_cert o) F al oc) /\
+      (forall k a, ~ In (k, ESolve a Unknown) log)
+  | (ExitNonZero, log) =>
+      exists k a log', log = log' ++ [(k, ESolve a Unknown)] /\
+                       forall k' a', ~ In (k', ESolve a' Unknown) log'
+  | (ModelOutOfFuel, log) =>
+      ~ fuel_ok (solver_for q s) (encoder_for (o_problem o) s (o_encoding o))
+                (query_comps (solver_for q s) q (o_cert o) (i_g i) al) fuel
+  end.
+Proof. exact apx_file_correct. Qed.
+
+Theorem C05_apx_file_rejected : forall oracle thr d fuel o bytes,
+  read_apx bytes = RdErr ->
+  run_traced oracle thr d fuel o (apx_input bytes) = (ExitNonZero, []).
+Proof. exact apx_file_rejected. Qed.
+
 (* the hypotheses are satisfiable *)
 Example C05_example :
   let label := fun a => dec (N.of_nat (S a)) in
@@ -211,6 +471,32 @@ Example C05_example :
   render WIccma label (OAcc true (Some [0; 2; 11])) = B "YES" ++ [nl] ++ B "w 1 3 12" ++ [nl] /\
   parse_answer WIccma un QDC (B "YES" ++ [nl] ++ B "w 1 3 12" ++ [nl]) = Some (OAcc true (Some [0; 2; 11])).
 Proof. exact parse_render_example. Qed.
+
+(* the hypotheses of the file theorems are satisfiable: the ICCMA'23 file `p af 3 / 1 2 (CRLF) / # c /
+   <sp>2<sp><sp>+01<sp>` (1 <-> 2, 3 alone), DC-PR for argument 3 with certificate and the brute-force
+   SAT oracle of Proofs/SolverWholeEx.v: `YES` and the witness `w 3` ({3} is complete, not preferred) *)
+Example C05_file_example :
+  let bytes := render_lines (iccma_file_lines ex_file) [false; true] true in
+  iccma_file_ok ex_file /\ IoSpec.final_ok (iccma_file_lines ex_file) true /\
+  valid_oracle SolverWholeEx.bf_oracle /\
+  bytes = B "p af 3" ++ [10%N] ++ B "1 2" ++ [13%N; 10%N] ++ B "# c" ++ [10%N] ++ B " 2  +01 " ++ [10%N] /\
+  file_attacks ex_file = [(0, 1); (1, 0)] /\
+  (exists i, validate ex_options (iccma_input bytes) = inr (i, QDC, PR, [2])) /\
+  run SolverWholeEx.bf_oracle 1 CadicalLike 100 ex_options (iccma_input bytes)
+    = Exit0 (B "YES" ++ [10%N] ++ B "w 3" ++ [10%N]).
+Proof. exact file_example. Qed.
+
+(* the same for Aspartix: arg(a). arg(b). arg(c). att(a,b). att(b,a).  DC-PR for c: `YES` and `[c]` *)
+Example C05_apx_example :
+  let bytes := render_lines (apx_file_lines ex_apx) [] true in
+  apx_file_ok ex_apx /\ IoSpec.final_ok (apx_file_lines ex_apx) true /\
+  valid_oracle SolverWholeEx.bf_oracle /\
+  bytes = B "arg(a)." ++ [10%N] ++ B "arg(b)." ++ [10%N] ++ B "arg(c)." ++ [10%N] ++
+          B "att(a,b)." ++ [10%N] ++ B "att(b,a)." ++ [10%N] /\
+  (exists i, validate ex_apx_options (apx_input bytes) = inr (i, QDC, PR, [2])) /\
+  run SolverWholeEx.bf_oracle 1 CadicalLike 100 ex_apx_options (apx_input bytes)
+    = Exit0 (B "YES" ++ [10%N] ++ B "[c]" ++ [10%N]).
+Proof. exact apx_example. Qed.
 
 Print Assumptions C05_problems_21.
 Print Assumptions C05_case_insensitive.
@@ -230,3 +516,13 @@ Print Assumptions C05_dispatch_sound.
 Print Assumptions C05_dcpr_certificate_gap.
 Print Assumptions C05_grounded_problems_correct_partial.
 Print Assumptions C05_wrapper_forces_options.
+Print Assumptions C05_dispatch_rows_ok.
+Print Assumptions C05_all_problems_correct.
+Print Assumptions C05_answer_ok_spelled.
+Print Assumptions C05_wrapper_correct.
+Print Assumptions C05_iccma_file_correct.
+Print Assumptions C05_iccma_file_instance.
+Print Assumptions C05_iccma_file_rejected.
+Print Assumptions C05_wrapper_iccma_file_correct.
+Print Assumptions C05_apx_file_correct.
+Print Assumptions C05_apx_file_rejected.
